@@ -1,16 +1,21 @@
 (* C04 - Schedule and configuration independence.
    Full statement: monitor P_C04 (harness/props/c04.py): equal per-simulator (time, inputs) sequences across
    schedules, start orders, lazy on/off, cache on/off, debug on/off, local/remote, for deterministic behaviours.
-   Proved here (C04_partial), the ingredients of the argument that do not depend on a schedule:
+   Proved here:
+   - C04_same_steps_in_every_interleaving (Sched/Determ.v): for simulators whose replies are a function of the step they
+     are asked to perform (behaviour B: next-step reply and output reply per simulator and step time), every step begun
+     in any run that follows B is also begun in every complete run that follows B - so two complete runs perform, for
+     every simulator, the same set of steps (the same sequence, by C02's strict increase), whatever the interleaving
+     of the replies;
    - what a step is given depends only on the data stores of its own inputs (frame property),
    - pruning does not change pulled values (cache on behaves like an unpruned cache),
-   - the guards are monotone in progress: a BEGIN that is enabled stays enabled when other simulators' progress grows
-     (so enabled steps of different simulators do not disable each other).
-   Missing: the commutation (diamond) lemma for DATAREPLY/BEGIN and the induction over Mazurkiewicz traces; debug
-   mode and remote transport are not modelled and are compared by differential execution only. *)
+   - the guards are monotone in progress: a BEGIN that is enabled stays enabled when other simulators' progress grows.
+   Missing (C04_partial): that the replies of a deterministic simulator coincide in both runs when they depend on its
+   inputs as well (equality of the inputs = the data-plane half, C03); debug mode and remote transport are not
+   modelled and are compared by differential execution only. *)
 From Coq Require Import ZArith List Bool Arith.
 Import ListNotations.
-From MV Require Import Time.Spec Time.Ord Static.Build Sched.Timing Sched.Plane Sched.DataP Sched.Mono.
+From MV Require Import Time.Spec Time.Ord Static.Build Sched.Timing Sched.Inv Sched.Main Sched.Quiet Sched.Plane Sched.DataP Sched.Mono Sched.Determ.
 Open Scope Z_scope.
 
 Theorem C04_partial_guards_monotone : forall st s s' i t,
@@ -30,3 +35,39 @@ Theorem C04_partial_pruned_cache_like_unpruned : forall (outs : list (Z * odata)
   get_output_for (filter (fun e : Z*odata => keep_from <=? fst e) outs) x = get_output_for outs x.
 Proof. exact prune_preserves_pull. Qed.
 Print Assumptions C04_partial_pruned_cache_like_unpruned.
+
+(* the steps do not depend on the interleaving: B gives every simulator's replies as a function of the step; run A is any
+   run following B, run B' a complete one *)
+Theorem C04_same_steps_in_every_interleaving : forall st, static_ok st -> init_before_until st ->
+  forall (B : behaviour) evsB lB,
+  run st (init_state st) evsB = Ok lB -> run_follows st B (init_state st) evsB ->
+  (forall i, (i < nsims st)%nat -> pc (List.last lB (init_state st) i) = Done) ->
+  forall evsA lA,
+  run st (init_state st) evsA = Ok lA -> run_follows st B (init_state st) evsA ->
+  (forall e j, In e evsA -> event_sim e = Some j -> (j < nsims st)%nat) ->
+  forall p i c m, nth_error evsA p = Some (EvBegin i c m) -> beginsB evsB i c.
+Proof. exact same_steps. Qed.
+Print Assumptions C04_same_steps_in_every_interleaving.
+
+(* non-vacuity: A (time-based) -> B (event-based, trigger), until = 2, lazy stepping off; B0 = "A steps every time unit and
+   produces its output on the connected port".  Two different interleavings built by the driver of Sched/Determ.v (A runs
+   ahead of B in the second one) are both complete runs that follow B0 - the premises of the theorem hold for them -
+   and they begin the same steps *)
+From MV Require Import Static.Groups Static.Connect Sched.Link Sched.Certify Sched.Guards Sched.Final.
+Example C04_nonvacuous :
+  let f := mkF true true false true true 0 false false true in
+  let sc := mkScen [None] (fun _ => 0%nat) (fun i => if Nat.eqb i 0 then TimeBased else EventBased) 2
+                   [mkConn 0 1 2 1 f false 0] [] 2 100 false true in
+  let B0 : behaviour := fun i t => if Nat.eqb i 0 then (Some (thd t + 1), Some (thd t, [2%nat])) else (None, None) in
+  match prepare 100 sc with
+  | Prepared st dt t anc =>
+      let e1 := drive st B0 (init_state st) [0;1;0;0;0;1;1;0;0;0;1;1]%nat in
+      let e2 := drive st B0 (init_state st) [0;1;0;0;0;0;0;0;1;1;1;1]%nat in
+      check_static sc t anc = true /\ init_before_untilb st = true /\ e1 <> e2 /\
+      (match run st (init_state st) e2 with Ok l => forallb (fun i => match pc (List.last l (init_state st) i) with Done => true | _ => false end) [0;1]%nat | Err _ => false end) = true /\
+      map (fun e => match e with EvBegin i c _ => Some (i, c) | _ => None end) (filter (fun e => match e with EvBegin _ _ _ => true | _ => false end) e1)
+        = [Some (0%nat, [0]); Some (1%nat, [0]); Some (0%nat, [1]); Some (1%nat, [1])] /\
+      map (fun e => match e with EvBegin i c _ => Some (i, c) | _ => None end) (filter (fun e => match e with EvBegin _ _ _ => true | _ => false end) e2)
+        = [Some (0%nat, [0]); Some (0%nat, [1]); Some (1%nat, [0]); Some (1%nat, [1])]
+  | _ => False end.
+Proof. vm_compute. repeat split; try reflexivity. discriminate. Qed.
